@@ -65,7 +65,7 @@ package engine
 //@   let transport = uf_s_peek(ctx.query, "transport", ctx.query.$bagver)
 //@   let sid       = uf_s_peek(ctx.query, "sid", ctx.query.$bagver)
 //@   let origin    = uf_s_peek(ctx.headers, "Origin", old(ctx.headers.$bagver))
-//@   let tBad      = !uf_b_setHas(bs.opts.Transports(), transport, bs.opts.Transports().$setver) || transport == "webtransport"
+//@   let tBad      = !maphas(bs.opts.Transports().cache, transport) || transport == "webtransport"
 //@   let oBad      = uf_b_invalidHeaderChar(origin)
 //@   let known     = uf_b_mapHas(bs.clients, sid, bs.clients.$mapver)
 //@   let hasSid    = len(sid) > 0
@@ -104,21 +104,21 @@ package engine
 // the upgrades a session advertises: targets of its transport that the server enables, without touching any shared set
 //@ func (*socket).getAvailableUpgrades()
 //@   props C06
-//@   requires sockLive(s)
+//@   requires sockLive(s) && s.server.Opts().Transports() != nil
 //@   modifies nothing
 //@   let enabled = s.server.Opts().Transports()
-//@   loop 1 invariant forall k int :: 0 <= k && k < len(availableUpgrades) ==> uf_b_setHas(enabled, availableUpgrades[k], enabled.$setver)
+//@   loop 1 invariant forall k int :: 0 <= k && k < len(availableUpgrades) ==> maphas(enabled.cache, availableUpgrades[k])
 //@   loop 1 invariant len(availableUpgrades) <= $i
 //@   loop 1 invariant cap(availableUpgrades) == 0 || fresh(backing(availableUpgrades))   // the result is built in storage of its own
-//@   ensures [C06.upg.enabled] forall k int :: 0 <= k && k < len(result) ==> uf_b_setHas(enabled, result[k], enabled.$setver)
+//@   ensures [C06.upg.enabled] forall k int :: 0 <= k && k < len(result) ==> maphas(enabled.cache, result[k])
 //@   ensures [C06.upg.source]  calls(BaseServer.Upgrades) == 1 && arg(BaseServer.Upgrades, 1, transport) == ret(transports.Transport.Name, 1) && arg(transports.Transport.Name, 1, this) == s.Transport() && len(result) <= len(ret((*types.Set).Keys, 1))
-//@   ensures [C06.upg.pure]    calls((*types.Set).Delete) == 0 && calls((*types.Set).Add) == 0 && enabled.$setver == old(enabled.$setver)
+//@   ensures [C06.upg.pure]    calls((*types.Set).Delete) == 0 && calls((*types.Set).Add) == 0
 
 // the session opens: state open, then the open packet carrying exactly the five advertised values, then the configured
 // initial packet (if any), then the open event and the heartbeat mode of the session's revision
 //@ func (*socket).onOpen()
 //@   props C06, C03, C07
-//@   requires sockLive(s) && s.ReadyState() == "opening"
+//@   requires sockLive(s) && s.ReadyState() == "opening" && s.server.Opts().Transports() != nil   // (set by baseServer.Construct: the default transport set, or the configured one)
 //@   modifies *
 //@   let initial = s.server.Opts().InitialPacket()
 //@   ensures [C06.open.state,C03.open] calls((*socket).SetReadyState) == 1 && arg((*socket).SetReadyState, 1, state) == "open" && before((*socket).SetReadyState, 1, (*socket).sendPacket, 1)
